@@ -233,10 +233,13 @@ pub fn gen_cases(seed: u64, n: usize, max_len: i32, max_depth: usize, start_id: 
         let (end, _els) = matching(&body);
         // plan
         let k = rng.gen_range(1..=4);
+        // theme: 0 mixed, 1 only block-alternates (several disjoint regions), 2 only special modes,
+        // 3 only before/after/alternate
+        let theme = rng.gen_range(0..6);
         let mut plan: Vec<J> = vec![];
         let mut regions: Vec<(usize, usize)> = vec![];
         let mut tries = 0;
-        while plan.len() < k && tries < 40 {
+        while plan.len() < k && tries < 80 {
             tries += 1;
             let p = plan.len() as u64;
             if rng.gen_range(0..8) == 0 {
@@ -246,7 +249,16 @@ pub fn gen_cases(seed: u64, n: usize, max_len: i32, max_depth: usize, start_id: 
                 continue;
             }
             let i = rng.gen_range(0..body.len());
-            let ms = modes_at(&body, i);
+            let mut ms = modes_at(&body, i);
+            match theme {
+                1 => ms.retain(|m| m.contains("block_alt")),
+                2 => ms.retain(|m| ["semantic_after", "block_entry", "block_exit"].contains(m)),
+                3 => ms.retain(|m| ["before", "after", "alternate", "empty_alternate"].contains(m)),
+                _ => {}
+            }
+            if ms.is_empty() {
+                continue;
+            }
             let mode = ms[rng.gen_range(0..ms.len())];
             let o = body[i]["o"].as_str().unwrap();
             // alternates only where the instruction leaves the stack untouched
